@@ -116,6 +116,14 @@ class AcctGen(object):
             op["with_cash"] = rng.choice([0.1, 1.0, -0.5])
         if rng.random() < pf.get("p_again", 0.0):
             op["again"] = True
+        if rng.random() < pf.get("p_preview", 0.12) and not exact and n >= 1:
+            # the request object is first used for a preview ("what would the trades be?"), the market may move, and
+            # the same object is then executed: the trades must be those of the account at execution time
+            op["preview"] = True
+            if rng.random() < 0.7:
+                j = rng.randrange(n)
+                q = self.new_quote(j)
+                op["preview_quote"] = q
         if rng.random() < pf.get("p_relative", 0.08) and not exact:
             # the allocation is a *change* from the current one (Rebalancing(absolute=False)); small steps
             op["absolute"] = False
@@ -227,6 +235,17 @@ def motif_add_margined_under_spread(rng, g, n, specs, deposit):
             {"op": "trade", "c": i, "mode": "unit", "x": rng.choice([1, -1])},
             {"op": "trade", "c": i, "mode": "rel", "x": rng.choice([1, 0.5])},
             {"op": "value"}]
+
+
+def motif_near_close(rng, g, n, specs, deposit):
+    """Open, then close up to a residual below the broker's rounding threshold: the position is rounded to
+    zero and so must be everything that hangs on it (margin)."""
+    i = _pick(rng, specs, "margined")
+    if i is None:
+        i = rng.randrange(n)
+    return [{"op": "trade", "c": i, "mode": "unit", "x": rng.choice([1, 2, -1])},
+            {"op": "trade", "c": i, "mode": "near_close", "x": rng.choice([4e-8, -4e-8, 9e-8, -2e-8])},
+            {"op": "mark", "c": None}, {"op": "value"}]
 
 
 def motif_flip(rng, g, n, specs, deposit):
